@@ -507,6 +507,9 @@ func (m *Mast) Insert(ctx context.Context, key, value interface{}) error {
 
 // Iter iterates over the entries of a tree, invoking the given callback for every entry's key and value.
 func (m *Mast) Iter(ctx context.Context, f func(interface{}, interface{}) error) error {
+	if m.root == nil {
+		return nil
+	}
 	node, err := m.load(ctx, m.root)
 	if err != nil {
 		return err
